@@ -2,7 +2,7 @@
    check (faithful or repaired) accepts only programs that satisfy the declarative rules. *)
 From Coq Require Import List ZArith String Bool Permutation Lia.
 From SCC Require Import Base.Sexp Lang.SynUtil Lang.FunSyn Model.Check Sem.FunTyping
-  Proof.FunInd Proof.FunEq Proof.CheckAnn Proof.TypingReject Proof.CheckBuild Proof.CheckMono Proof.CheckMonoSound.
+  Proof.FunInd Proof.FunEq Proof.CheckAnn Proof.TypingReject Proof.CheckBuild Proof.CheckMono Proof.CheckMonoSound Proof.CheckDecls.
 Import ListNotations.
 Open Scope list_scope.
 
@@ -50,60 +50,9 @@ Proof.
   apply in_fdefs in Hin. specialize (Hm _ Hin). simpl in Hm. apply andb_true_iff in Hm. tauto.
 Qed.
 
-(* ---------- declarations: Data::check / Codata::check ---------- *)
-Section Decls.
-  Variable ts : list tdecl.
-  Variable fs : list fdef.
-  Variable st : symtab.
-  Hypothesis Tb : tables ts fs st.
-  Hypothesis Hparams : forall td, In td ts -> td_params td = [].
-
-  Lemma ty_check_template_wf : forall t, mono_ty t = true -> ty_check_template st [] t = COk tt -> wf_tty ts [] t = true.
-  Proof.
-    intros [|n args] Hm H; [reflexivity|]. apply mono_ty_decl in Hm. subst args. simpl in *.
-    destruct (ahas (st_type_templates st) n) eqn:Ea; [|discriminate].
-    apply ahas_true in Ea. destruct Ea as [[[pol ps] xs] Ea].
-    destruct (find_type_tt ts fs st n pol ps xs Tb Ea) as [td [Hf _]]. rewrite Hf.
-    rewrite (Hparams td (find_type_in _ _ _ Hf)). reflexivity.
-  Qed.
-  Lemma ctx_check_template_wf : forall c, mono_ctx c = true -> ctx_check_template st [] c = COk tt ->
-    forallb (fun b => wf_tty ts [] (fbty b)) c = true.
-  Proof.
-    induction c as [|b r IH]; intros Hm H; [reflexivity|]. simpl in *.
-    apply andb_true_iff in Hm. destruct Hm as [Hb Hr].
-    apply cbind_ok in H. destruct H as [[] [H1 H]].
-    rewrite (ty_check_template_wf _ Hb H1). simpl. auto.
-  Qed.
-End Decls.
-
-Lemma check_type_decls_ok : forall ts fs st ds,
-  tables ts fs st -> (forall td, In td ts -> td_params td = []) ->
-  forallb mono_decl ds = true -> check_type_decls ds st = COk tt ->
-  forall td, In td (tdecls ds) -> forallb (xsig_ok ts (td_params td)) (td_xtors td) = true.
-Proof.
-  intros ts fs st ds Tb Hp. induction ds as [|d r IH]; intros Hm H td Hin; [destruct Hin|].
-  simpl in Hm. apply andb_true_iff in Hm. destruct Hm as [Hmd Hmr].
-  destruct d as [d|d|d]; simpl in H, Hin.
-  - apply cbind_ok in H. destruct H as [[] [H1 H]].
-    destruct Hin as [<-|Hin]; [|apply IH; assumption]. simpl.
-    simpl in Hmd. apply andb_true_iff in Hmd. destruct Hmd as [Hps Hcs].
-    destruct (fdaparams d); [|discriminate]. clear Hps.
-    revert H1 Hcs. generalize (fdactors d). intros cs. induction cs as [|c cr IHc]; intros H1 Hcs; [reflexivity|].
-    simpl in *. apply andb_true_iff in Hcs. destruct Hcs as [Hc Hcr].
-    apply cbind_ok in H1. destruct H1 as [[] [Hc1 H1]].
-    unfold xsig_ok at 1. simpl. rewrite (ctx_check_template_wf ts fs st Tb Hp _ Hc Hc1). simpl. auto.
-  - apply cbind_ok in H. destruct H as [[] [H1 H]].
-    destruct Hin as [<-|Hin]; [|apply IH; assumption]. simpl.
-    simpl in Hmd. apply andb_true_iff in Hmd. destruct Hmd as [Hps Hcs].
-    destruct (fcoparams d); [|discriminate]. clear Hps.
-    revert H1 Hcs. generalize (fcodtors d). intros cs. induction cs as [|c cr IHc]; intros H1 Hcs; [reflexivity|].
-    simpl in *. apply andb_true_iff in Hcs. destruct Hcs as [Hc Hcr]. apply andb_true_iff in Hc. destruct Hc as [Hca Hct].
-    apply cbind_ok in H1. destruct H1 as [[] [Hc1 H1]].
-    apply cbind_ok in H1. destruct H1 as [[] [Hc2 H1]].
-    unfold xsig_ok at 1. simpl. rewrite (ctx_check_template_wf ts fs st Tb Hp _ Hca Hc1).
-    rewrite (ty_check_template_wf ts fs st Tb Hp _ Hct Hc2). simpl. auto.
-  - apply IH; assumption.
-Qed.
+(* ---------- declarations: Data::check / Codata::check ----------
+   Proof/CheckDecls.v check_type_decls_ok (all programs; since fix <commit15> the declaration types are checked
+   completely, so the lemma no longer needs the fragment) ---------- *)
 
 (* ---------- definitions ---------- *)
 Lemma ctx_no_dups_go_ok : forall c seen, ctx_no_dups_go seen c = COk tt ->
@@ -137,6 +86,17 @@ Section Defs.
       rewrite Hw, Hwr. splits; eauto using same_templates_trans, grows_trans.
   Qed.
 
+  (* def.rs, since fix <commit12>: the return type of `main` is compared with i64 *)
+  Lemma main_ret_check_mono_sound : forall d st st', mono_ty (fdret d) = true -> tables ts fs st -> minv st ->
+    main_ret_check d st = COk st' -> main_ret_ok d = true /\ minv st' /\ same_templates st st' /\ grows st st'.
+  Proof.
+    intros d st st' Hm Tb I H. unfold main_ret_check in H. unfold main_ret_ok.
+    destruct (String.eqb (fdname d) "main").
+    - destruct (check_equality_mono_sound ts fs (W_ret _ _ W) FI64 (fdret d) st st' eq_refl Hm Tb I H) as [E [_ [I' [S [G _]]]]].
+      rewrite <- E. splits; auto.
+    - inversion H; subst. splits; auto using same_templates_refl, grows_refl.
+  Qed.
+
   Lemma def_check_gen_sound : forall eager d st d' st',
     mono_ctx (fdctx d) = true -> mono_ty (fdret d) = true -> mono_term (fdbody d) = true ->
     tables ts fs st -> minv st -> def_check_gen eager d st = COk (d', st') ->
@@ -145,15 +105,18 @@ Section Defs.
     intros eager d st d' st' Hmc Hmr Hmb Tb I H. unfold def_check_gen in H.
     apply cbind_ok in H. destruct H as [[] [Hnd H]].
     apply cbind_ok in H. destruct H as [st1 [H1 H]].
-    apply cbind_ok in H. destruct H as [st2 [H2 H]].
+    apply cbind_ok in H. destruct H as [st2a [H2 H]].
+    apply cbind_ok in H. destruct H as [st2 [H2m H]].
     apply cbind_ok in H. destruct H as [[body' st3] [H3 H]]. inversion H; subst.
     apply ctx_no_dups_go_ok in Hnd. destruct Hnd as [Hnd _].
     destruct (ctx_check_sound _ _ _ Hmc Tb I H1) as [Hwc [I1 [S1 G1]]].
-    destruct (ty_check_mono_sound ts fs (W_ret _ _ W) _ _ _ Hmr (tables_same _ _ _ _ Tb S1) I1 H2) as [Hwr [I2 [S2 [G2 _]]]].
+    destruct (ty_check_mono_sound ts fs (W_ret _ _ W) _ _ _ Hmr (tables_same _ _ _ _ Tb S1) I1 H2) as [Hwr [I2a [S2a [G2a _]]]].
+    assert (S02a : same_templates st st2a) by eauto using same_templates_trans.
+    destruct (main_ret_check_mono_sound d st2a st2 Hmr (tables_same _ _ _ _ Tb S02a) I2a H2m) as [Hmain [I2 [S2 G2]]].
     assert (S02 : same_templates st st2) by eauto using same_templates_trans.
     destruct (check_term_gen_sound ts fs W (fdbody d) eager st2 (fdctx d) (fdret d) body' st' Hmb Hmc Hmr (tables_same _ _ _ _ Tb S02) I2 H3)
       as [K [I3 [S3 G3]]].
-    unfold def_ok. unfold E in K. rewrite Hnd, Hwc, Hwr, K. splits; eauto using same_templates_trans.
+    unfold def_ok. unfold E in K. rewrite Hmain, Hnd, Hwc, Hwr, K. splits; eauto using same_templates_trans.
   Qed.
 
   Lemma check_defs_gen_sound : forall eager ds st ds' st',
@@ -189,7 +152,7 @@ Proof.
   apply andb_true_iff. split.
   - unfold decls_ok. apply forallb_forall. intros td Hin. unfold tdecl_ok.
     destruct (Hps td Hin) as [Hp1 Hp2]. rewrite Hp1, Hp2. simpl.
-    eapply check_type_decls_ok; try eassumption. apply (W_params _ _ W).
+    eapply check_type_decls_ok; try eassumption. intros td0 Hin0. exact (proj2 (Hps td0 Hin0)).
   - rewrite defs_of_fdefs in Hdefs.
     eapply check_defs_gen_sound; [exact W| |exact Tb|apply minv_start; assumption|exact Hdefs].
     intros d Hin. destruct (W_defs _ _ W d Hin). splits; auto. eapply mono_def_body; eassumption.
